@@ -125,7 +125,8 @@ def second_full_step(ri, r, method, step1, x0, y0, dt, rho, lb, ub, ss, condF):
     except StepSolverError:
         return f"{ss}/LU/Full: StepSolverError in the second Newton iteration (cond {sv[0]/sv[-1]:.2e})"
     err = max(float(np.max(np.abs(step2.iterate.x - xn), initial=0.0)), float(np.max(np.abs(step2.iterate.y - yn), initial=0.0)))
-    allowed = 1e-8 * (sv[0] / sv[-1] + condF) * (1.0 + float(np.linalg.norm(s2, np.inf)))
+    mag = float(max(np.max(np.abs(x1), initial=0.0), np.max(np.abs(y1), initial=0.0), np.max(np.abs(x0), initial=0.0)))
+    allowed = 1e-8 * (sv[0] / sv[-1] + condF) * (1.0 + float(np.linalg.norm(s2, np.inf))) + 1e-12 * mag
     if err > allowed:
         return (f"{ss}/LU/Full: second Newton iteration (same step-solver object, derivatives re-evaluated at z1) differs from the dense "
                 f"Newton step at z1 by {err:.3e} > {allowed:.3e}; got x+={step2.iterate.x.tolist()} expected {xn.tolist()}")
@@ -210,15 +211,16 @@ def check(case):
                 if not np.isfinite(condM) or condM > 1e9:
                     labels.append("excluded_combo:cond_M")
                     continue
+                zmag = 1e-12 * float(max(np.max(np.abs(x), initial=0.0), np.max(np.abs(y), initial=0.0)))  # rounding of the iterate itself
                 if ls == "LU":
-                    allowed = 1e-9 * (condF + condM) * (1.0 + snorm)
+                    allowed = 1e-9 * (condF + condM) * (1.0 + snorm) + zmag
                 else:
                     b = rec["rhs"]
                     if ls == "GMRES":
                         rb = gmres_bound(b)
                     else:
                         rb = minres_bound(M, b, rec["x0"], rec["sol"])
-                    allowed = rb / smin + 1e-9 * (condF + condM) * (1.0 + snorm)
+                    allowed = rb / smin + 1e-9 * (condF + condM) * (1.0 + snorm) + zmag
                     if allowed > 1e-2 * max(snorm, 1e-12):
                         labels.append(f"combo_trivial:{ls}")
                         continue
